@@ -17,7 +17,11 @@ fn mix(seed: u64, family: &str, i: u64) -> u64 {
 
 fn main() {
     let args: Vec<String> = std::env::args().collect();
-    std::panic::set_hook(Box::new(|_| {}));
+    if std::env::var_os("GGRS_VERIF_SHOW_PANICS").is_some() {
+        std::panic::set_hook(Box::new(|info| eprintln!("panic: {info}")));
+    } else {
+        std::panic::set_hook(Box::new(|_| {}));
+    }
     match args.get(1).map(String::as_str) {
         Some("run") if args.len() >= 4 => {
             let scenario = std::fs::read_to_string(&args[2]).expect("scenario");
